@@ -96,6 +96,7 @@ type stepRun struct {
 	rng      *Rng
 	journal  []JEntry
 	nextID   int
+	dbgCount int
 	pend     []*pendingIrq
 	halted   bool
 	haltVal  interface{}
@@ -562,11 +563,25 @@ func (r *stepRun) install() {
 		}
 		return v
 	}))
+	must(vm.Set("hctx", func(call otto.FunctionCall) otto.Value {
+		r.st.Probe("host_reads_context")
+		ctx := call.Otto.Context()
+		_ = ctx.Symbols
+		return otto.UndefinedValue()
+	}))
 	if r.c.Debugger {
 		vm.SetDebuggerHandler(func(o *otto.Otto) {
 			r.st.Probe("debugger_handler")
+			r.dbgCount++
 			if _, err := o.Get("C"); err != nil && r.viol == nil {
 				r.viol = viol("C18", "debugger_get_failed", "%v", err)
+			}
+			// a handler that inspects the paused program by evaluating in it: the
+			// evaluation takes steps, so an interrupt can land inside the handler
+			// (like the other host functions of this harness it passes a failure of
+			// the nested call on instead of swallowing it)
+			if _, err := o.Eval("var __dz=(__dz|0)+1;__dz"); err != nil {
+				panic(o.MakeCustomError("HostError", err.Error()))
 			}
 		})
 	}
@@ -922,6 +937,14 @@ func postChecks(c *StepCase, res *RunResult) *Violation {
 		}
 		if d, l := vm.VerifScopeDepth(), vm.VerifLabelCount(); d != 0 || l != 0 {
 			return viol("C18", "not_at_rest", "after the second interrupted script: scope depth %d, labels %d", d, l)
+		}
+	}
+	// a debugger handler stays installed whatever way the previous script ended
+	if c.Debugger {
+		before := r.dbgCount
+		_, err, p, pv := protectedRun(vm, "debugger;")
+		if p || err != nil || r.dbgCount != before+1 {
+			return viol("C18", "debugger_handler_lost", "`debugger;` run after the exit: handler invoked %d times (want 1), err=%v panic=%v", r.dbgCount-before, err, pv)
 		}
 	}
 	// continuation: later scripts run normally
